@@ -87,12 +87,13 @@ class Liveness:
 
 class Run:
     def __init__(self, prog, entry, K=60, overrides=None, map_perm=False, max_instr=400000, name=None,
-                 reduce=True, verbose=False, inits=(), spawn_limits=None, time_budget_s=None):
+                 reduce=True, verbose=False, inits=(), spawn_limits=None, time_budget_s=None, sequential=False):
         self.prog = prog
         self.entry = entry
         self.K = K
         self.m = Machine(prog, max_instr=max_instr)
         self.m.map_perm = map_perm
+        self.m.sequential = sequential
         self.time_budget_s = time_budget_s
         if spawn_limits:
             self.m.spawn_limits.update(spawn_limits)
